@@ -9,7 +9,7 @@
   Q   vacuity canaries: the hypothesis sets (pre, pre+inv) are not refutable
   S   fg_id_numpy stage 1: E2 VCs of its index-building loop (dict of lists as (domain, element arrays,
       lengths)): p_id_to_index inverts p_id, children[x] lists exactly the persons naming x as a parent
-      stage 2: E2 VCs of the assignment loop with an inner invariant for its nested loop: safety and range only
+      stage 2: E2 VCs of the assignment loop with an inner invariant for its nested loop: safety, range, fg within hh
   F   fg_id_numpy as a whole (the partition produced by the second loop: nested loop over concatenated lists, outside E2): bounded-EXHAUSTIVE over all typed
       pointer structures up to isomorphism and ALL row orders up to 4 persons (quick) / 5 persons
       (thorough) -- the bound the property itself names -- against specs/groupings_spec.py;
@@ -34,7 +34,8 @@ PROVED = ["eg_id_numpy", "ehe_id_numpy", "sn_id_numpy", "bg_id_numpy", "wthh_id_
 # contracts of single stages of a kernel that is not proved as a whole, unbounded N:
 #   #index  fg_id_numpy's index-building loop (p_id_to_index inverts p_id; children lists sound, complete, never empty)
 #   #assign its assignment loop incl. the nested loop over the concatenated children lists, under the postcondition of
-#           #index: SAFETY (no KeyError / IndexError on any path) and RANGE (everybody gets an id in [0, #units)) only
+#           #index: SAFETY (no KeyError / IndexError on any path), RANGE (everybody gets an id in [0, #units)) and NESTING
+#           (equal ids imply equal hh_id); who else shares an id is not part of it
 # A stage contract speaks about internal state, so a refuted stage obligation is a violation only together with
 # a failing input of the whole kernel from the bounded-exhaustive run F; otherwise it is undecided.
 STAGES = ["fg_id_numpy#index", "fg_id_numpy#assign"]
@@ -237,6 +238,25 @@ def lemmas(rep):
     }.items():
         r = solve.check(q, 10)
         rep.ob(name, {"unsat": "discharged", "sat": "refuted"}.get(r.status, "unknown"), r.backend, r.seconds, "src/_gettsim/groupings.py", "lemma")
+    # L3: units nest -- needs unit within family unit within household, for any number of rows, composed from the
+    # postconditions of bg_id_numpy (bg[i] = fg[i]*100 + c[i], 0 <= c[i] < 100: same bg => same fg) and of
+    # fg_id_numpy#assign R2 (same fg => same hh); L4: wthh within hh from wthh[i] = hh[i]*100 + flag[i]
+    N, i, j = z3.Ints("N i j")
+    bg, fg, hh, c, wt, fl = (z3.Array(n, z3.IntSort(), z3.IntSort()) for n in ("bg", "fg", "hh", "c", "wthh", "flag"))
+    rng = lambda v: z3.And(0 <= v, v < N)  # noqa: E731
+    ii = z3.Int("ii")
+    jj = z3.Int("jj")
+    for name, q in {
+        "L3 units nest: bg[i] = bg[j] => fg[i] = fg[j] and hh[i] = hh[j] (bg post + fg_id_numpy#assign R2)": [
+            z3.ForAll([ii], z3.Implies(rng(ii), z3.And(bg[ii] == fg[ii] * 100 + c[ii], 0 <= c[ii], c[ii] < 100))),
+            z3.ForAll([ii, jj], z3.Implies(z3.And(rng(ii), rng(jj), fg[ii] == fg[jj]), hh[ii] == hh[jj])),
+            rng(i), rng(j), bg[i] == bg[j], z3.Or(fg[i] != fg[j], hh[i] != hh[j])],
+        "L4 wthh within hh: wthh[i] = wthh[j] => hh[i] = hh[j] (wthh post)": [
+            z3.ForAll([ii], z3.Implies(rng(ii), z3.And(wt[ii] == hh[ii] * 100 + fl[ii], 0 <= fl[ii], fl[ii] <= 1))),
+            rng(i), rng(j), wt[i] == wt[j], hh[i] != hh[j]],
+    }.items():
+        r = solve.check(q, 10)
+        rep.ob(name, {"unsat": "discharged", "sat": "refuted"}.get(r.status, "unknown"), r.backend, r.seconds, "src/_gettsim/groupings.py", "lemma")
 
 
 def replay(path):
@@ -263,9 +283,22 @@ def run(tier="quick", seed=0, jobs=16):
     # V: proofs
     results = par.pmap(_vc_worker, PROVED + STAGES, jobs)
     lost = {}
+    stage_skipped = []
+    order = {n: k_ for k_, n in enumerate(PROVED + STAGES)}
+    results = sorted(results, key=lambda r_: order.get(r_[1], 99))
     for st, name, res in results:
         if st != "ok":
             raise RuntimeError(res)
+        if name == "fg_id_numpy#assign" and "unsupported" not in res and (any(s_.startswith("fg_id_numpy#index") for s_ in stage_skipped) or "fg_id_numpy#index" in lost):
+            # modularity: the VCs of the second stage assume the postcondition of the first; if that was not established
+            # in this run, nothing proved from it counts
+            res = {"name": name, "unsupported": "its hypothesis, the postcondition of fg_id_numpy#index, was not established in this run"}
+        if "unsupported" in res and name in STAGES:
+            # the code of this stage has left the E2 subset (e.g. the loop was restructured): the stage contract is an
+            # auxiliary, unbounded strengthening on top of the registered route for fg_id_numpy (bounded-exhaustive run F,
+            # the property's own bound); it is reported as not checked, F decides. Lost OBLIGATIONS are never dropped.
+            stage_skipped.append(f"{name}: not checked, the code is outside the E2 subset ({res['unsupported'][:160]})")
+            continue
         if "unsupported" in res:
             rep.ob(f"{name}: contract binds to the code", "unsupported", "E2", 0, "src/_gettsim/groupings.py", "binding", res["unsupported"])
             lost[name] = "unsupported"
@@ -339,6 +372,9 @@ def run(tier="quick", seed=0, jobs=16):
                 sig = "random:" + _fg_signature(d, exp, got)
                 if sig not in fg_bad:
                     fg_bad[sig] = {"kernel": "fg_id_numpy", "inputs": {k: v.tolist() for k, v in dd.items()}, "got": sorted(map(sorted, got)), "expected": sorted(map(sorted, exp)), "row_order": list(perm), "n": n}
+    if stage_skipped:
+        rep.assumptions.extend(stage_skipped)
+        rep.bounded["fg_id_numpy_stage_contracts_not_checked"] = {"evaluations": 0, "distinct_nontrivial": 0, "rule": "; ".join(stage_skipped)}
     rep.bounded["fg_id_numpy_random"] = {"evaluations": n_rand, "distinct_nontrivial": n_rand // 6, "rule": "seeded random unambiguous structures with 6-8 persons, up to 3 households, random p_id labels, 6 random row orders each; distinct = structures"}
     rep.functions.add("src/_gettsim/groupings.py:101 fg_id_numpy (stage 1 = index-building loop by contract; the kernel as a whole bounded exhaustive, not proved)")
     for b in bad + bad2:
